@@ -71,7 +71,8 @@ FILES = [
 ]
 
 
-def run_interleave(ctx, nenf, k, first, kind, file0=0, names=None):
+def run_interleave(ctx, nenf, k, first, kind, file0=0, names=None,
+                   where='main'):
     from oslo_policy import policy
     common.set_ctx(ctx)
     shared = _shared(kind)
@@ -83,8 +84,9 @@ def run_interleave(ctx, nenf, k, first, kind, file0=0, names=None):
             envs.append(env)
             end = bool(ctx.bool('end%d' % e))
             fi = (file0 + e) % len(FILES)
+            pf = 'policy.yaml' if where == 'main' else 'policy.d/over.yaml'
             if FILES[fi] or bool(ctx.bool('mainfile%d' % e)):
-                env.write('policy.yaml', FILES[fi])
+                env.write(pf, FILES[fi])
             cfgs.append({'end': end, 'file': fi, 'edits': 0})
             enfs.append(env.enforcer(defaults=shared,
                                      enforce_new_defaults=end))
@@ -104,7 +106,7 @@ def run_interleave(ctx, nenf, k, first, kind, file0=0, names=None):
             else:
                 cfgs[e]['edits'] += 1
                 cfgs[e]['file'] = (cfgs[e]['file'] + 1) % len(FILES)
-                env.write('policy.yaml', FILES[cfgs[e]['file']])
+                env.write(pf, FILES[cfgs[e]['file']])
             ctx.cover('op:' + op)
             # -- after every step ------------------------------------------------
             now = repr(_snap(shared))
@@ -150,6 +152,8 @@ def cubes_interleave(tier, seed):
             for f0 in range(len(FILES)):
                 out.append({'nenf': 1, 'k': 4, 'first': first,
                             'kind': 'plain', 'file0': f0})
+                out.append({'nenf': 1, 'k': 4, 'first': first,
+                            'kind': 'nested', 'file0': f0, 'where': 'dir'})
         for first in range(8):
             for kind in ('plain', 'nested'):
                 for f0 in range(len(FILES)):
@@ -160,6 +164,8 @@ def cubes_interleave(tier, seed):
         for first in range(4):
             for kind in ('plain', 'nested'):
                 out.append({'nenf': 1, 'k': 6, 'first': first, 'kind': kind})
+                out.append({'nenf': 1, 'k': 5, 'first': first, 'kind': kind,
+                            'where': 'dir'})
         for first in range(8):
             for kind in ('plain', 'nested'):
                 for f0 in range(len(FILES)):
